@@ -1,9 +1,24 @@
 # C12 -- interval and interval-linear-form arithmetic encloses every concrete result
+import os as _os
+
+def _fpe_float_compiles():
+    """The Floating_Point_Expression class hierarchy can only be instantiated for a float analyser format once
+    proposed_fixes/C12-5.diff is applied (std::max(double, float) in compute_absolute_error)."""
+    repo = _os.environ.get("VERIF_REPO", "/repo")
+    try:
+        s = open(_os.path.join(repo, "src", "Floating_Point_Expression_templates.hh")).read()
+    except OSError:
+        return False
+    return "std::pow" in s or bool(_os.environ.get("C12_FPE_FLOAT"))
+
 HARNESSES = {
     "c12_interval": {"src": ["harness/c12_interval.cc"], "variant": "prod"},
+    # stand-alone reproducers of the known findings (not part of the check)
+    "c12_repro": {"src": ["harness/c12_repro.cc"], "variant": "prod", "flags": ["-fpermissive"]},
     # -fpermissive: src/{Sum,Difference,Multiplication,Division,Cast}_Floating_Point_Expression_templates.hh call the
     # dependent base member relative_error() unqualified, which standard two-phase lookup rejects (see proposed_fixes/C12-5.diff)
-    "c12_linform": {"src": ["harness/c12_linform.cc"], "variant": "prod", "flags": ["-fpermissive"] + (["-DC12_FPE_FLOAT=1"] if __import__("os").environ.get("C12_FPE_FLOAT") else [])},
+    "c12_linform": {"src": ["harness/c12_linform.cc"], "variant": "prod",
+                    "flags": ["-fpermissive"] + (["-DC12_FPE_FLOAT=1"] if _fpe_float_compiles() else [])},
 }
 
 def _runs(tier):
@@ -19,6 +34,7 @@ CHECKS = {
                 "interval members are real numbers (integer-bound boxes approximate sets of reals); the oracle works over Q with GMP",
                 "division by an interval having zero in its interior is only required to enclose (documented I_SINGULARITIES convention: universe)",
                 "wrap_assign is only required to contain the wrapped images of the integer members that lie in the refinement interval",
-                "linearisation: concrete evaluations producing an infinity or a NaN (overflow, division by zero) are run-time errors outside the soundness statement and are skipped (counted)",
+                "linearisation: concrete evaluations raising FE_OVERFLOW / FE_DIVBYZERO / FE_INVALID (or producing an infinity or a NaN) are run-time errors of the analysed program outside the soundness statement and are skipped (counted)",
+                "the FP_Oracle of the harness returns the topological closure of Interval(const char*) for floating point constants (the constant of the analysed program is one of the two neighbouring floating point numbers)",
             ]},
 }
